@@ -662,6 +662,43 @@ def rule_gf2_algebra(repo: Repo, rep: Report) -> int:
     return n + 2
 
 
+#: buffers that together describe the code of one encoder object
+CODE_BUFFERS = ("generator_matrix", "check_matrix")
+
+
+def rule_buffer_persistence(repo: Repo, rep: Report, names=CODE_BUFFERS, effect="codewords have non-zero syndromes", floor=5) -> int:
+    """G, H (and, for C04, the right inverse) are buffers of one module.  load_state_dict replaces the persistent ones and leaves the
+    others as constructed, so they describe one code after a checkpoint load only if they are all persistent or all not."""
+    n = 0
+    sites = []
+    for mi in repo.modules.values():
+        if not mi.relpath.startswith(ENC + "/"):
+            continue
+        for ci in mi.classes.values():
+            for fi in ci.methods.values():
+                for c in ast.walk(fi.node):
+                    if isinstance(c, ast.Call) and attr_chain(c.func) == "self.register_buffer" and c.args and isinstance(c.args[0], ast.Constant) and c.args[0].value in names:
+                        pk = next((k.value for k in c.keywords if k.arg == "persistent"), c.args[2] if len(c.args) > 2 else None)
+                        if pk is None:
+                            pers = True
+                        elif isinstance(pk, ast.Constant) and isinstance(pk.value, bool):
+                            pers = pk.value
+                        else:
+                            pers = None
+                        sites.append((fi, c, c.args[0].value, pers))
+    rep.floor("code-describing buffers registered by the encoder package", len(sites), floor)
+    known = {p_ for *_, p_ in sites if p_ is not None}
+    for fi, c, name, pers in sites:
+        n += 1
+        if pers is None:
+            rep.undecided("PERSIST", fi, f"register_buffer('{name}', ...)", f"persistence `{unparse(c)[:80]}` is not a literal", node=c)
+        elif len(known) > 1 and pers is False:
+            rep.violation("PERSIST", fi, f"register_buffer('{name}', ..., persistent=False)", f"`{name}` is left out of the state dict while other buffers of the same code description are kept: after load_state_dict from an encoder of another code with the same (n, k) the generator matrix is the loaded one and `{name}` is the old one, so {effect}", node=c)
+        else:
+            rep.ok("PERSIST", fi, f"register_buffer('{name}', ...) persistent = {pers}", "all buffers of the code description share one persistence: a checkpoint load replaces all of them or none", node=c, nontrivial=False)
+    return n
+
+
 def thorough_evaluations(repo: Repo, rep: Report) -> None:
     """Thorough tier: the evaluations that otherwise only decide unlisted spellings are run on the tree as it is."""
     for what, fn, fi in (
@@ -683,6 +720,7 @@ def run(repo: Repo, rep: Report, tier: str) -> None:
     n += rule_systematic_matrix(repo, rep)
     n += rule_null_space(repo, rep)
     n += rule_info_set_dependence(repo, rep)
+    n += rule_buffer_persistence(repo, rep)
     classes = [repo.cls(LIN, "LinearBlockCodeEncoder")] + [c for c in repo.subclasses("LinearBlockCodeEncoder") if c.file.startswith(ENC + "/")]
     n += tstr_lint(repo, rep, "T-STR", classes)
     for ci in classes:
